@@ -281,3 +281,28 @@ Definition rt_ok_b (r : attr_row) : bool :=
   | DEnumTokens a, REnumTokens b => forallb (fun x => mem_str x b) a
   | _, _ => false
   end.
+
+(** ---- xmlchemy attribute descriptors (OptionalAttribute / RequiredAttribute) ----
+    state of one attribute of an element: absent or its text *)
+Definition opt_attr_set (to_xml : pyval -> res pyval) (dflt v : pyval) : res (option str) :=
+  if py_eqb v dflt then Ok None                 (* assigning the default removes the attribute *)
+  else match to_xml v with
+       | Ok (PStr s) => Ok (Some s)
+       | Ok _ => Err OtherErr
+       | Err e => Err e
+       end.
+Definition req_attr_set (to_xml : pyval -> res pyval) (v : pyval) : res (option str) :=
+  match to_xml v with
+  | Ok (PStr s) => Ok (Some s)
+  | Ok _ => Err OtherErr
+  | Err e => Err e
+  end.
+(** one assignment: a refused value leaves the attribute as it was *)
+Definition attr_step (required : bool) (to_xml : pyval -> res pyval) (dflt : pyval)
+                     (cur : option str) (v : pyval) : option str * res unit :=
+  match (if required then req_attr_set to_xml v else opt_attr_set to_xml dflt v) with
+  | Ok c => (c, Ok tt)
+  | Err e => (cur, Err e)
+  end.
+Definition opt_attr_get (from_xml : pyval -> res pyval) (dflt : pyval) (cur : option str) : res pyval :=
+  match cur with None => Ok dflt | Some s => from_xml (PStr s) end.
